@@ -135,11 +135,7 @@ def step (st : St) (line : String) : St × String :=
     match nat? d with
     | some d => match getDb st d with
       | some (.mem db) => (st, "ok " ++ joinOr "," ((Dict.sortAsc db.hashvals).map toString))
-      | some (.sql s) =>
-        let neg := (s.hashvals.filter (· < 0)).map (fun i => (i + (2 ^ 64 : Int)).toNat)
-        let pos := (s.hashvals.filter (· ≥ 0)).map Int.toNat
-        (st, "ok " ++ joinOr "," (((Dict.sortAsc neg).map (fun (n : Nat) => toString (Int.ofNat n - (2 ^ 64 : Int))))
-                                   ++ (Dict.sortAsc pos).map toString))
+      | some (.sql s) => (st, "ok " ++ joinOr "," ((Dict.sortAsc s.hashvals).map toString))
       | none => bad
     | none => bad
   | ["sigs", d] =>
